@@ -15,7 +15,7 @@ for p in props:
             res.setdefault(m.group(1), {})[p] = (m.group(3), m.group(4))
     print(p, r.returncode, flush=True)
 shutil.rmtree(out)
-for d in sorted(glob.glob(V + '/seeded/C??-m?')):
+for d in sorted(glob.glob(V + '/seeded/C??-m*')):
     sid = os.path.basename(d)
     meta = json.load(open(d + '/meta.json'))
     meta['confirmed_by'] = ("seeded/verify_seed.sh %s <scratch worktree of /repo>: the demonstration passes on the clean worktree, the patch applies and the tree builds, "
